@@ -60,9 +60,9 @@ MUTANTS["C01"] = [
     ("non-entry blocks declare their inputs in signature order", _cfgc,
      "inputs = sort_vars(bb.sig.input_row)", "inputs = list(bb.sig.input_row)", "R-C01.6"),
     ("sort order puts linear variables first", _cfgc,
-     "(p1.ty.linear, _name_key(p1)) < (p2.ty.linear, _name_key(p2))", "(not p1.ty.linear, _name_key(p1)) < (not p2.ty.linear, _name_key(p2))", "R-C01.6"),
+     "    key1 = (p1.ty.linear, _name_key(p1), str(p1))\n    key2 = (p2.ty.linear, _name_key(p2), str(p2))", "    key1 = (not p1.ty.linear, _name_key(p1), str(p1))\n    key2 = (not p2.ty.linear, _name_key(p2), str(p2))", "R-C01.6"),
     ("sort order ignores the name", _cfgc,
-     "(p1.ty.linear, _name_key(p1)) < (p2.ty.linear, _name_key(p2))", "(p1.ty.linear,) < (p2.ty.linear,)", "R-C01.6"),
+     "    key1 = (p1.ty.linear, _name_key(p1), str(p1))\n    key2 = (p2.ty.linear, _name_key(p2), str(p2))", "    key1 = (p1.ty.linear,)\n    key2 = (p2.ty.linear,)", "R-C01.6"),
     ("regular outputs keep everything", _cfgc,
      "outputs = [v for v in first if v.ty.linear]", "outputs = [v for v in first if True or v.ty.linear]", "R-C01.6"),
     ("outputs not sorted like successor inputs", _cfgc,
